@@ -8,7 +8,7 @@ VARIABLE lastact     \* the label of the last step (part of the VIEW: "the contr
 
 GView == <<now, api, cache, evq, storeq, counter, wq, timer, retry, iq, itimer, iretry, sync, isync,
            jcapi, jccache, jcevq, jq, jretry, jsync, seen, faults, crashes, touches, lastact>>
-GInit == SInit /\ lastact = "Init" /\ \A i \in 1..6 : TLCSet(i, 0)
+GInit == SInit /\ lastact = "Init" /\ \A i \in 1..7 : TLCSet(i, 0)
 GNext == SNext /\ lastact' = sched'[Len(sched')].a
 GSpec == GInit /\ [][GNext]_<<svars, lastact>>
 
@@ -43,6 +43,12 @@ G_RestartWithDeletingActive ==
     /\ \E k \in Jobs : Active(api[k]) /\ api[k].del /\ api[k].jc # 0
                        /\ \E j \in Jobs : api[j].jc = api[k].jc /\ Queued(api[j]) /\ api[j].sa <= now /\ ~api[j].adm /\ api[j].pol # "Allow"
 
+\* the controller has just restarted while a JobConfig with maxConcurrency 2 had two active Jobs and a third one waiting
+G_RestartAtLimitTwo ==
+    /\ lastact = "CrashRestart"
+    /\ \E c \in JCs : MaxC[c] = 2 /\ TrueActive(api, c) = 2
+                      /\ \E j \in Jobs : api[j].jc = c /\ Queued(api[j]) /\ api[j].sa <= now /\ ~api[j].adm /\ api[j].pol # "Allow"
+
 EmitGoal(i, name, G) == ~G \/ TLCGet(i) >= K \/ (TLCSet(i, TLCGet(i) + 1) /\ PrintT(<<"SCHED", ToJson(sched), name>>))
 Goal1 == EmitGoal(1, "StatusAheadJobGone", G_StatusAheadJobGone)
 Goal2 == EmitGoal(2, "StatusAheadSchedGone", G_StatusAheadSchedGone)
@@ -50,5 +56,6 @@ Goal3 == EmitGoal(3, "StartFailedSlotHeld", G_StartFailedSlotHeld)
 Goal4 == EmitGoal(4, "TwoQueuedCapacityFreed", G_TwoQueuedCapacityFreed)
 Goal5 == EmitGoal(5, "RestartWithQueued", G_RestartWithQueued)
 Goal6 == EmitGoal(6, "RestartWithDeletingActive", G_RestartWithDeletingActive)
+Goal7 == EmitGoal(7, "RestartAtLimitTwo", G_RestartAtLimitTwo)
 Stop == \E i \in Goals : TLCGet(i) < K
 ====
